@@ -33,6 +33,7 @@
 #include <veriblock/pop/crypto/progpow/cache.hpp>
 #include <veriblock/pop/crypto/progpow/ethash.hpp>
 #include <veriblock/pop/entities/vbkblock.hpp>
+#include <veriblock/pop/hashutil.hpp>
 #include <veriblock/pop/third_party/lru_cache.hpp>
 
 #include "common.hpp"
@@ -444,6 +445,77 @@ static std::string run_powhit(const std::string& id, int threads, uint64_t seed,
   return g_bad ? "bad" : "ok";
 }
 
+// ---- (c) round 2: the hashed byte string and lru11 as a lossy map ----
+//   <id> hdr <height> <version> <prev:12B hex> <ks1:9B> <ks2:9B> <merkle:16B> <ts> <diff> <nonce>   (hex, '-' = negative)
+//        -> "<id> <toRaw hex> <epoch the real progPowHashImpl asked the epoch cache for>"
+//        oracles: header-cache key == sha256twice(toRaw); DeserializeFromRaw(toRaw) == block iff nonce < 2^40;
+//   <id> lrum <maxsize> <elast> <ops..>   ops: i<key>.<value> | t<key> | c   (ARBITRARY values, keys re-bound)
+//        -> "<id> <per op: i | c | m | v<value>> / <size>"
+struct EpochSeen { uint64_t epoch; };
+struct EpochProbe : public EthashCacheI {
+  // records the epoch and leaves progPowHashImpl by an exception: the kernel itself asserts on epochs beyond
+  // VBK_MAX_CALCULATED_EPOCHS_SIZE, and arbitrary heights are wanted here
+  std::shared_ptr<CacheEntry> getOrDefault(uint64_t epoch, std::function<std::shared_ptr<CacheEntry>()>) override {
+    throw EpochSeen{epoch};
+  }
+  void clear() override {}
+};
+struct KeyProbe : public ProgpowHeaderCacheI {
+  std::vector<uint256>* keys;
+  explicit KeyProbe(std::vector<uint256>* k) : keys(k) {}
+  void insert(const uint256& key, uint192) override { keys->push_back(key); }
+  bool tryGet(const uint256& key, uint192&) override { keys->push_back(key); return false; }
+  void clear() override {}
+};
+
+static std::string run_hdr(const std::string& id, const std::vector<std::string>& a) {
+  VbkBlock b;
+  b.setHeight((int32_t)vh::parse_hex64s(a[0]));
+  b.setVersion((int16_t)vh::parse_hex64s(a[1]));
+  b.setPreviousBlock(uint96(vh::unhex(a[2])));
+  b.setPreviousKeystone(VbkBlock::keystone_t(vh::unhex(a[3])));
+  b.setSecondPreviousKeystone(VbkBlock::keystone_t(vh::unhex(a[4])));
+  b.setMerkleRoot(uint128(vh::unhex(a[5])));
+  b.setTimestamp((uint32_t)vh::parse_hex64(a[6]));
+  b.setDifficulty((int32_t)vh::parse_hex64s(a[7]));
+  uint64_t nonce = vh::parse_hex64(a[8]);
+  b.setNonce(nonce);
+  std::vector<uint8_t> raw = b.toRaw();
+  std::vector<uint256> keys;
+  setEthashCache(std::unique_ptr<EthashCacheI>(new EpochProbe()));
+  setProgpowHeaderCache(std::unique_ptr<ProgpowHeaderCacheI>(new KeyProbe(&keys)));
+  std::string epoch = "none";
+  try { b.getHash(); } catch (const EpochSeen& e) { epoch = vh::hexnum(e.epoch); }
+  uint256 k = sha256twice(raw);
+  if (keys.size() != 1 || !(keys[0] == k))
+    vh::oracle_fail(id, "header-cache key is not sha256twice(toRaw()) (" + std::to_string(keys.size()) + " cache calls)");
+  VbkBlock back = block_of(raw);
+  bool same = (back == b);
+  if (same != (nonce < (1ULL << 40)))
+    vh::oracle_fail(id, std::string("DeserializeFromRaw(toRaw(b)) ") + (same ? "==" : "!=") + " b with nonce " + vh::hexnum(nonce));
+  setEthashCache(std::unique_ptr<EthashCacheI>(new TinyEthash<6>()));
+  setProgpowHeaderCache(std::unique_ptr<ProgpowHeaderCacheI>(new TinyHeader(8, 1)));
+  return vh::hex(raw) + " " + epoch;
+}
+
+static std::string run_lrum(const std::string&, size_t maxsize, size_t elast, const std::vector<std::string>& ops) {
+  lru11::Cache<uint64_t, uint64_t, std::mutex> c(maxsize, elast);
+  std::string out;
+  for (auto& o : ops) {
+    if (o == "c") { c.clear(); out += " c"; continue; }
+    if (o[0] == 'i') {
+      auto dot = o.find('.');
+      c.insert(std::stoull(o.substr(1, dot - 1)), std::stoull(o.substr(dot + 1)));
+      out += " i";
+    } else {
+      uint64_t v = 0;
+      if (c.tryGet(std::stoull(o.substr(1)), v)) out += " v" + std::to_string(v);
+      else out += " m";
+    }
+  }
+  return out.substr(out.empty() ? 0 : 1) + " / " + std::to_string(c.size());
+}
+
 int main() {
   return vh::main_loop([](const std::string& id, const std::string& op, const std::vector<std::string>& a) -> std::string {
     std::cout.flush();
@@ -462,6 +534,8 @@ int main() {
     if (op == "blk") return run_blk(id, std::stoull(a[0]), std::vector<std::string>(a.begin() + 1, a.end()));
     if (op == "serial") return run_serial(id, std::stoull(a[0]), std::stoi(a[1]));
     if (op == "powhit") return run_powhit(id, std::stoi(a[0]), std::stoull(a[1]), std::stoi(a[2]));
+    if (op == "hdr") return run_hdr(id, a);
+    if (op == "lrum") return run_lrum(id, std::stoul(a[0]), std::stoul(a[1]), std::vector<std::string>(a.begin() + 2, a.end()));
     return "UNKNOWN-OP";
   });
 }
